@@ -411,6 +411,31 @@ def run(chk):
                               "size the vector overload of the same method gives to that buffer (compared symbolically)")
     nx = extent.extent_rule(chk, db, "C10-D9.extent")
     chk.floor("C10-D9.extent", nx, 3, "in-place corrections of output buffers paired with a sizing overload")
+    # ------------------------------------------------------------------ D10 canonical coordinates are consumed by canonical routines only
+    chk.rule("C10-D10.canonical", "coordinates that went through formCanonicalPoints() are in the canonical domain: inside the API class they are handed only to the grid object (base-> / "
+                                  "get<Grid>()->), never to another method of the API class, which would apply the domain / conformal map a second time")
+    ncan = 0
+    for f in db.all_functions([CPP, HPP]):
+        if f.cls != TSG or f.d.get("islambda"):
+            continue
+        canon = set()
+        for d_ in f.locals().values():
+            if d_.get("k") == "VarDecl" and d_.get("c") and any(short(callee(q) or "").startswith("formCanonicalPoints") for q in [d_["c"][0]] + list(walk(d_["c"][0]))):
+                canon.add(d_["did"])
+        for c in f.calls(into_lambda=False):
+            args = call_args(c)
+            uses = [a for a in args if any((q.get("k") == "DeclRefExpr" and q.get("did") in canon) or short(callee(q) or "").startswith("formCanonicalPoints") for q in [a] + list(walk(a)))]
+            if not uses or short(callee(c) or "").startswith("formCanonicalPoints"):
+                continue
+            t = db.resolve(c)
+            tcls = t.cls if t is not None else (callee(c) or "").rsplit("::", 1)[0]
+            ncan += 1
+            chk.saw(f)
+            bad = (tcls == TSG)
+            chk.ob("C10-D10.canonical", f.key + f.sig, "canonical points handed to %s @%d" % ((callee(c) or "?").rsplit("::", 2)[-2:] and "::".join((callee(c) or "?").rsplit("::", 2)[-2:]), c.get("l", 0)), not bad, f.loc(c),
+                   "" if not bad else "the callee is a method of the API class: it maps its argument to the canonical domain again")
+    chk.floor("C10-D10.canonical", ncan, 10, "consumers of canonical coordinates in the API class")
+
     from rules import routing
     nrt = routing.routing_rule(chk, db, "C10-D7.routing")
     chk.floor("C10-D7.routing", nrt, 15, "forwarding calls of the three families")
